@@ -104,6 +104,7 @@ func (ex *Exec) resetPath() {
 	ex.auxVars = ex.auxVars[:0]
 	ex.asciiKnown = map[*Term]bool{}
 	ex.clockLog = nil
+	ex.realClockReads = 0
 	// the literal index is rebuilt per path (a stale literal from a sibling
 	// path must never be taken as implied)
 	ex.pcLits = ex.pcLits[:0]
